@@ -7,6 +7,12 @@ NOTES = ("All checks: ./check <ID> quick|thorough; exit 0 held / 1 VIOLATION / 2
          "every run. known_findings.json lists open findings and fixed: records; replays/<ID>/ holds committed regression cases.")
 NOT_APPLICABLE = {}
 CHECKS = {
+    "C09": {
+        "technique": "bounded exhaustive enumeration + property-based sampling against a reference model: all recipes up to length 3 (quick) / 4 (thorough) over a 21-entry core alphabet and up to 2 / 3 over the full 70-entry alphabet, longer recipes sampled by Hypothesis with a block grammar; oracle = independent linear chain-of-responsibility interpreter comparing the type-exact value and the exact per-request consultation log",
+        "text": "Exploration with exhaustive short-recipe part: marker functions make the composition order readable from the result; a logging Provider records every consultation; extend(), replace(), class-level recipes (MRO), nested and bound retorts, loaders and dumpers are covered.",
+        "note": "Trusted: the reference interpreter and the logging wrapper (20% of sampled cases use raw loader()/dumper() providers to guard against the wrapper hiding something). Not covered: non-located request classes, terminal CannotProvide, location stacks deeper than two.",
+        "engine": "enumeration+hypothesis",
+    },
     "C17": {
         "technique": "differential property-based testing across model kinds: one generated logical model is realised as dataclass / NamedTuple / TypedDict / attrs / pydantic / SQLAlchemy classes (documented limitations as applicability predicates); loads, dumps, error structures, name_mapping effects and inter-kind converters are compared pairwise",
         "text": "Exploration: the same input must load to field-wise equal objects, equal objects must dump to equal data, bad input must produce the same flattened error structure (ALL mode), converters between kinds must copy every field.",
